@@ -14,15 +14,19 @@ input, by this property's hostile tier (ASan: a read past the NUL of a heap stri
 Termination: every model function is total (structural recursion, or fuel = input length with the
 fuel-exhausted outcome proved/observed unreachable), so the parsers terminate on every input; the
 OPL reader's outer loop is driven by the input queue (environment: C06/C19).
-`opl_reads_in_bounds_partial`: proved for all field parsers (integers, strings with escapes,
-timestamps, coordinates) and for the line as the reader sees it (cut at its first NUL); NOT proved:
-the attribute loop of `opl_parse_node/way/relation/changeset` as a cursor program (the model passes
-NUL-free sections to the field parsers by `takeWhile`, which is the property rather than a proof of it).
+`opl_reads_in_bounds` (FULL): the attribute loops of `opl_parse_node/way/relation/changeset`, the tag /
+way-node / member loops with their end pointers and `opl_parse_line` are a cursor program over the
+memory (Model/HostileOpl.lean); run on `s ++ 0 :: junk` it computes what it computes on `s`.
+`opl_decoded_objects_wf`, `xml_decoded_objects_wf`: every object the OPL / XML reader model delivers
+satisfies the builders' `Guards` and is traversed completely in bounds.
 expat is outside: `xml_reader_total` is about the reader's callbacks over ANY event sequence.
 -/
 import Osmium.Lemmas.HostileText
 import Osmium.Lemmas.Escape
 import Osmium.Lemmas.HostileXmlUser
+import Osmium.Lemmas.HostileReadersOpl
+import Osmium.Lemmas.HostileReadersXml
+import Osmium.Lemmas.HostileOpl
 
 namespace Osmium.HostileText.C03
 
@@ -75,42 +79,65 @@ theorem opl_fields_read_in_bounds :
     StopsAtNul OplFmt.pTs ∧ StopsAtNul OplFmt.pCoord :=
   ⟨pInt_stops, pStr_stops, pTs_stops, pCoord_stops⟩
 
-theorem cstr_noNul (l : Bytes) : NoNul (Chunks.cstr l) := by
-  induction l with
-  | nil => intro b hb; cases hb
-  | cons x xs ih =>
-    unfold Chunks.cstr
-    by_cases hx : (x == 0) = true
-    · rw [if_pos hx]; intro b hb; cases hb
-    · rw [if_neg hx]
-      intro b hb
-      rcases List.mem_cons.mp hb with rfl | hb
-      · intro h0; exact hx (by simp [h0])
-      · exact ih b hb
-
-theorem cstr_behind (s junk : Bytes) (h : NoNul s) : Chunks.cstr (s ++ behind junk) = s := by
-  induction s with
-  | nil => simp [behind, Chunks.cstr]
-  | cons x xs ih =>
-    have hx : x ≠ 0 := h x (List.mem_cons_self ..)
-    have hx' : (x == 0) = false := by simpa using hx
-    simp only [List.cons_append, Chunks.cstr, hx']
-    simp only [Bool.false_eq_true, if_false, List.cons.injEq, true_and]
-    exact ih (fun b hb => h b (List.mem_cons_of_mem _ hb))
-
-/-- `opl_reads_in_bounds` as far as it is proved: (1) every field parser stops at the terminator;
-    (2) the line parser is a function of the line up to its first NUL: whatever lies behind the NUL
-    in the input buffer (the rest of the 1 MiB block, the next lines) cannot influence the parse of
-    this line, and the string it works on is NUL-free, which is the hypothesis of (1). -/
-theorem opl_reads_in_bounds_partial :
-    ((∀ tmin tmax, StopsAtNul (OplFmt.pInt tmin tmax)) ∧ StopsAtNul OplFmt.pStr ∧
-      StopsAtNul OplFmt.pTs ∧ StopsAtNul OplFmt.pCoord) ∧
+/-- the line as the reader hands it to `opl_parse_line` is a C string: whatever lies behind the first
+    NUL of a line in the input buffer (the rest of the 1 MiB block, the next lines) is not part of
+    it, and the string the abstract line parser `OplFmt.parseLine` works on is NUL-free — the
+    hypothesis of `opl_reads_in_bounds` -/
+theorem opl_line_is_c_string :
     (∀ (types : OplFmt.Types) (s junk : Bytes), NoNul s →
       OplFmt.parseLines types [s ++ behind junk |> Chunks.cstr] = OplFmt.parseLines types [s]) ∧
     (∀ l : Bytes, NoNul (Chunks.cstr l)) := by
-  refine ⟨opl_fields_read_in_bounds, ?_, cstr_noNul⟩
+  refine ⟨?_, cstr_noNul⟩
   intro types s junk h
   rw [cstr_behind s junk h]
+
+/-- `opl_reads_in_bounds` (FULL).  `HostileOpl.parseLineF` is `opl_parse_line` with `opl_parse_node` /
+    `opl_parse_way` / `opl_parse_relation` / `opl_parse_changeset` transcribed as a CURSOR PROGRAM over
+    the memory that holds the line (Model/HostileOpl.lean): the `while (**data)` loop with
+    `opl_parse_space`, the dispatch on the attribute character, the duplicate-attribute errors, the
+    sections T / N / M remembered as begin / end POINTERS and parsed after the loop
+    (`opl_parse_tags`, `opl_parse_way_nodes`, `opl_parse_relation_members` with their `s == e` /
+    `s < e` pointer comparisons), every read a `peek` at the cursor.  For EVERY NUL-free line `s`,
+    EVERY content `junk` of the memory behind its terminating NUL, every entity filter and every
+    fuel: run on the memory `s ++ 0 :: junk` the program computes exactly what it computes on `s`
+    alone — nothing behind the terminator is looked at, no cursor passes it (all field parsers stop
+    in front of it: `opl_fields_read_in_bounds`; all stored pointers lie in front of it:
+    `opl_attribute_loop_pointers_before_nul`).  Also for the self-fuelled `parseLineCur`, and: two
+    memories holding the same line give the same result.  (That the cursor program delivers the same
+    objects as the abstract `OplFmt.parseLine` is checked on every run — model_c03 `oplcur` on every
+    line of the hostile tier — not proved: it needs "leaf parsers stop at space / tab".) -/
+theorem opl_reads_in_bounds (types : OplFmt.Types) (s junk : Bytes) (h : NoNul s) :
+    (∀ F, HostileOpl.parseLineF F types (s ++ behind junk) = HostileOpl.parseLineF F types s) ∧
+    HostileOpl.parseLineCur types (s ++ behind junk) =
+      HostileOpl.parseLineF ((s ++ behind junk).length + 16) types s ∧
+    (∀ junk' : Bytes, junk.length = junk'.length →
+      HostileOpl.parseLineCur types (s ++ behind junk) = HostileOpl.parseLineCur types (s ++ behind junk')) :=
+  ⟨fun F => HostileOpl.parseLineF_mem F types s junk h, HostileOpl.parseLineCur_mem types s junk h,
+   fun junk' hl => HostileOpl.parseLineCur_junk_irrelevant types s junk junk' h hl⟩
+
+/-- non-vacuity / illustration: the line "w1 Nn1" with ",n2 Ta=b" behind its NUL — bytes that would
+    continue the node list and add a tag if the terminator were passed — is the way with the single
+    node 1 -/
+example :
+    HostileOpl.parseLineCur {} ([0x77, 0x31, 0x20, 0x4e, 0x6e, 0x31] ++ behind [0x2c, 0x6e, 0x32, 0x20, 0x54, 0x61, 0x3d, 0x62]) =
+      .ok (some (.way { id := 1 } [⟨1, Osm.Location.undefined⟩])) := by rfl
+
+/-- the simulation behind it, for the attribute loops: started in corresponding states (`liftObjSt` /
+    `liftCsSt` append `0 :: junk` to every stored pointer) on the line and on the memory, the loop
+    ends in corresponding states — every pointer it stores on the memory (`tags_begin`,
+    `nodes_begin` / `nodes_end`, `members_begin` / `members_end`) is the pointer it stores on the
+    line, i.e. lies in front of the NUL -/
+theorem opl_attribute_loop_pointers_before_nul (junk : Bytes) (F : Nat) (s : Bytes) (hn : NoNul s) :
+    (∀ (k : OplFmt.Kind) (st : HostileOpl.ObjStC), HostileOpl.ObjInv st →
+      HostileOpl.attrLoopC (HostileOpl.objFieldC k) F (HostileOpl.liftObjSt junk st) (s ++ behind junk) =
+        HostileOpl.mapOk (HostileOpl.liftObjSt junk) (HostileOpl.attrLoopC (HostileOpl.objFieldC k) F st s)) ∧
+    (∀ (st : HostileOpl.CsStC), HostileOpl.CsInv st →
+      HostileOpl.attrLoopC HostileOpl.csFieldC F (HostileOpl.liftCsSt junk st) (s ++ behind junk) =
+        HostileOpl.mapOk (HostileOpl.liftCsSt junk) (HostileOpl.attrLoopC HostileOpl.csFieldC F st s)) :=
+  ⟨fun k st hinv => (HostileOpl.attrLoopC_mem (fun junk st c s hn hinv => HostileOpl.objFieldC_ok k junk st c s hn hinv)
+      junk F st s hn hinv).1,
+   fun st hinv => (HostileOpl.attrLoopC_mem (fun junk st c s hn hinv => HostileOpl.csFieldC_ok junk st c s hn hinv)
+      junk F st s hn hinv).1⟩
 
 /-- the model driver's `rd opl` (Driver/Text.lean) splits lines with linear-time functions; they are
     the specification's: what the driver computes IS `OplFmt.parseFile` -/
@@ -122,18 +149,6 @@ theorem opl_driver_lines_eq (types : OplFmt.Types) (bs : Bytes) :
   apply List.map_congr_left
   intro l _
   rw [cstrFast_eq]; rfl
-
-theorem bindE_ok_iff {ε α β : Type} (x : Except ε α) (f : α → Except ε β) (b : β) :
-    TextFmt.bindE x f = .ok b ↔ ∃ a, x = .ok a ∧ f a = .ok b := by
-  cases x with
-  | ok a => simp [TextFmt.bindE]
-  | error e => simp [TextFmt.bindE]
-
-theorem setUserCheck_ok (u : Bytes) (h : OplFmt.setUserCheck u = .ok ()) : u.length ≤ 1024 := by
-  unfold OplFmt.setUserCheck at h
-  split at h
-  · cases h
-  · rename_i hn; simpa [OplFmt.maxString] using hn
 
 /-- F13c at full strength for OPL (repair bc6b907): the user name of EVERY object the OPL line
     parser delivers — for any line, any entity filter — is at most `max_osm_string_length` bytes, so
@@ -195,6 +210,44 @@ theorem opl_user_length_checked (types : OplFmt.Types) (line : Bytes) (o : Osm.O
               · cases h
             · cases h
 
+/-! ### OPL: every delivered object can be traversed in bounds -/
+
+section
+open Osmium.HostileLayout Osmium.HostileReaders
+
+/-- `opl_decoded_objects_wf` — END TO END for the OPL reader: for EVERY line (any bytes) and entity
+    filter, the object `opl_parse_line` delivers satisfies all builder `Guards`: user name
+    (`set_user`, repair bc6b907), tag keys / values (`add_tag`) and roles (`add_member`) are at most
+    `max_osm_string_length` bytes, and no string contains a NUL byte BY CONSTRUCTION —
+    `opl_parse_string` appends only bytes in front of the next NUL / separator and the UTF-8
+    encodings of `%hex%` escapes, and the escape value 0 yields '%' (`parseLine_ok`).  Hence the item
+    the builders write for it (`oplObjS`: set_user, tags, then node refs / members) is well-formed
+    and its complete traversal stays in bounds and returns what was put in.  Premise: item < 4 GiB
+    (the builders throw std::length_error before the 32-bit size wraps: repair 2935e9f). -/
+theorem opl_decoded_objects_wf (types : OplFmt.Types) (line : Bytes) (o : Osm.Object) (fill : UInt8) (fixed : Bytes)
+    (h : OplFmt.parseLine types line = .ok (some o))
+    (hf : fixed.length = (oplObjS fixed o).kind.sizeT - 8)
+    (hs : objSize fill (oplObjS fixed o) < 2 ^ 32) :
+    Guards fill (oplObjS fixed o) ∧ Layout.WF (build fill (oplObjS fixed o)) = true ∧
+    ∃ fields, Layout.decodeAll (build fill (oplObjS fixed o)) =
+      .ok [.mk (oplObjS fixed o).kind.ty false fields [(oplObjS fixed o).user] ((oplObjS fixed o).subs.map subTree)] := by
+  have g : Guards fill (oplObjS fixed o) := oplObjS_guards fill fixed o (parseLine_ok types line o h).1 hf hs
+  exact ⟨g, (guards_wf fill _ g).1, (guards_wf fill _ g).2⟩
+
+/-- "r5 ubob Ta=b Mn1@x%0%y": a relation with user "bob", tag a=b and a member whose role is written
+    with the escape `%0%` — the reader delivers the role "x%y" (no NUL byte) -/
+def oplExampleLine : Bytes :=
+  [0x72, 0x35, 0x20, 0x75, 0x62, 0x6f, 0x62, 0x20, 0x54, 0x61, 0x3d, 0x62, 0x20, 0x4d, 0x6e, 0x31, 0x40, 0x78, 0x25, 0x30, 0x25, 0x79]
+
+/-- non-vacuity -/
+example : ∃ o, OplFmt.parseLine {} oplExampleLine = .ok (some o) ∧
+    (ctorFixed .relation).length = (oplObjS (ctorFixed .relation) o).kind.sizeT - 8 ∧
+    objSize 0 (oplObjS (ctorFixed .relation) o) < 2 ^ 32 := by
+  refine ⟨.relation { id := 5, user := [0x62, 0x6f, 0x62], tags := [⟨[0x61], [0x62]⟩] } [⟨1, 1, [0x78, 0x25, 0x79]⟩], ?_, ?_, ?_⟩ <;>
+    decide +kernel
+
+end
+
 /-! ### XML -/
 
 open Osmium.XmlFmt in
@@ -255,6 +308,63 @@ theorem xml_reader_builder_invariant (types : OplFmt.Types) (st : RSt) (p : Prot
 theorem xml_user_length_checked (types : OplFmt.Types) (evs : List Ev) (h : Osm.Header) (objs : List Osm.Object)
     (hr : XmlFmt.read types evs = .ok (h, objs)) : ∀ o ∈ objs, (HostileXml.objUser o).length ≤ 1024 :=
   read_user_ok types evs h objs hr
+
+/-! ### XML: every delivered object can be traversed in bounds -/
+
+section
+open Osmium.HostileLayout Osmium.HostileReaders
+
+/-- the recorded builder states (`HostileReaders.delivered`: `runEvents` with the `Cur` of every
+    object noted at its `commit()`) are exactly the objects the reader model returns, each seen
+    through the accessors (`assemble`), and both throw for the same event sequences -/
+theorem xml_delivered_are_read_objects (types : OplFmt.Types) (evs : List Ev) :
+    (∀ e, XmlFmt.read types evs = .error e → delivered types evs = .error e) ∧
+    (∀ h objs, XmlFmt.read types evs = .ok (h, objs) → ∃ cs, delivered types evs = .ok cs ∧ objs = cs.map assemble) :=
+  delivered_assemble types evs
+
+/-- `xml_decoded_objects_wf` — END TO END for the XML reader: for EVERY event sequence expat may
+    deliver (any element names, nesting, attributes, character data) and every entity filter, every
+    object the reader commits satisfies all builder `Guards`.  The callbacks receive attribute values
+    as `const XML_Char*` C strings: what reaches `set_user` / `add_tag` / `add_member` / `add_comment`
+    is the value UP TO ITS FIRST NUL (`cEv`), hence NUL-free BY CONSTRUCTION; lengths: `set_user`
+    (repair bc6b907), `add_tag`, `add_member`, `add_comment` throw std::length_error beyond
+    `max_osm_string_length`; the discussion protocol is kept (`xml_reader_keeps_builder_protocol`),
+    every comment has its text.  Blocks are created in DOCUMENT order, possibly several of one type
+    (`xmlObjS` follows `Cur.subs`).  Hence the item the builders write is well-formed and its complete
+    traversal stays in bounds and returns what was put in.
+    Premises: character data without NUL (`CharsNoNul`: XML 1.0 has no NUL character, a conforming
+    parser never reports one — the only premise about expat; it is needed for the exact read-back of
+    comment texts, which are delimited by their size field); item < 4 GiB (repair 2935e9f). -/
+theorem xml_decoded_objects_wf (types : OplFmt.Types) (evs : List Ev) (cs : List Cur) (fill : UInt8) (fixed : Bytes)
+    (hch : CharsNoNul evs) (h : delivered types (evs.map cEv) = .ok cs) (c : Cur) (hc : c ∈ cs)
+    (hf : fixed.length = (xmlObjS fixed c).kind.sizeT - 8)
+    (hs : objSize fill (xmlObjS fixed c) < 2 ^ 32) :
+    Guards fill (xmlObjS fixed c) ∧ Layout.WF (build fill (xmlObjS fixed c)) = true ∧
+    ∃ fields, Layout.decodeAll (build fill (xmlObjS fixed c)) =
+      .ok [.mk (xmlObjS fixed c).kind.ty false fields [(xmlObjS fixed c).user] ((xmlObjS fixed c).subs.map subTree)] := by
+  have hok := delivered_ok types _ cs h (cEv_NN evs hch) c hc
+  have g : Guards fill (xmlObjS fixed c) := xmlObjS_guards fill fixed c hok hf hs
+  exact ⟨g, (guards_wf fill _ g).1, (guards_wf fill _ g).2⟩
+
+/-- a way whose `user` attribute holds a NUL byte in expat's memory (impossible for a conforming
+    parser, harmless for the reader: it sees the C string "u"), with <nd>, <tag>, <nd> in this order:
+    THREE blocks (node refs, tags, node refs) -/
+def xmlExampleDoc : List Ev :=
+  [evOsm, .start "way" [("id", [49]), ("user", [117, 0, 120])], .start "nd" [("ref", [49])], .stop "nd",
+   .start "tag" [("k", [107]), ("v", [118])], .stop "tag", .start "nd" [("ref", [50])], .stop "nd", .stop "way", .stop "osm"]
+
+/-- non-vacuity: the document is delivered as one way with user "u" and three blocks; the premises
+    are satisfiable for it -/
+example : CharsNoNul xmlExampleDoc ∧
+    ∃ c, delivered {} (xmlExampleDoc.map cEv) = .ok [c] ∧ curUser c = [117] ∧ c.subs.length = 3 ∧
+      (ctorFixed .way).length = (xmlObjS (ctorFixed .way) c).kind.sizeT - 8 ∧
+      objSize 0 (xmlObjS (ctorFixed .way) c) < 2 ^ 32 := by
+  refine ⟨fun t ht => by simp [xmlExampleDoc, evOsm] at ht, ?_⟩
+  refine ⟨{ obj := .way { id := 1, user := [117] } [],
+            subs := [.nodes [⟨1, Osm.Location.undefined⟩], .tags [⟨[107], [118]⟩], .nodes [⟨2, Osm.Location.undefined⟩]],
+            lastOpen := true }, ?_, ?_, ?_, ?_, ?_⟩ <;> decide +kernel
+
+end
 
 /-- non-vacuity of the monitor: a protocol state that is NOT reachable (comment pending at
     <discussion> level) makes the next <comment> a misuse -/
